@@ -23,8 +23,58 @@ META = {
 HERE = os.path.dirname(os.path.dirname(os.path.abspath(__file__)))
 
 
+def lock_audit(repo):
+    """The model treats "was it shut down while connecting?" + install as ONE atomic region.  Check on the source that the
+    shutdown test that follows the connect and the install are inside the same `with self._lock:` block."""
+    import ast
+    probs = []
+
+    def find(tree, cls, fn, inner=None):
+        for n in ast.walk(tree):
+            if isinstance(n, ast.ClassDef) and n.name == cls:
+                for m in ast.walk(n):
+                    if isinstance(m, ast.FunctionDef) and m.name == fn:
+                        if inner is None:
+                            return m
+                        for k in ast.walk(m):
+                            if isinstance(k, ast.FunctionDef) and k.name == inner:
+                                return k
+        return None
+
+    def audit(fnode, what, is_install):
+        if fnode is None:
+            probs.append('%s: function not found' % what)
+            return
+        ok = False
+        for w in ast.walk(fnode):
+            if isinstance(w, ast.With) and any(isinstance(i.context_expr, ast.Attribute) and i.context_expr.attr == '_lock' for i in w.items):
+                has_test = any(isinstance(t, ast.If) and any(isinstance(a, ast.Attribute) and a.attr == 'is_shutdown' and
+                               isinstance(a.value, ast.Name) and a.value.id == 'self' for a in ast.walk(t.test)) for t in w.body)
+                has_install = any(is_install(x) for x in ast.walk(w))
+                if has_test and has_install:
+                    ok = True
+        if not ok:
+            probs.append('%s: the is_shutdown test after the connect and the install are not in one `with self._lock` region' % what)
+
+    def assigns_attr(name):
+        return lambda x: isinstance(x, ast.Assign) and any(isinstance(t, ast.Attribute) and t.attr == name for t in x.targets)
+
+    def assigns_pools(x):
+        return isinstance(x, ast.Assign) and any(isinstance(t, ast.Subscript) and isinstance(t.value, ast.Attribute) and t.value.attr == '_pools' for t in x.targets)
+    pool_t = ast.parse(open(os.path.join(repo, 'cassandra/pool.py')).read())
+    cl_t = ast.parse(open(os.path.join(repo, 'cassandra/cluster.py')).read())
+    audit(find(pool_t, 'HostConnection', '_replace'), 'HostConnection._replace', assigns_attr('_connection'))
+    audit(find(cl_t, 'Session', 'add_or_renew_pool', 'run_add_or_renew_pool'), 'Session.add_or_renew_pool', assigns_pools)
+    return probs
+
+
 def run(ctx):
     ok = ctx.prove('Props/C45.v')
+    probs = lock_audit(core.REPO)
+    ctx.extra['lock_audit'] = probs or 'ok: shutdown test + install share one `with self._lock` region in HostConnection._replace and Session.add_or_renew_pool'
+    ctx.trust('lock-region audit (checks/C45.py:lock_audit) + forced interleaving through vf.cstate_harness.HookLock')
+    if probs:
+        ctx.proof_broken.append(('atomicity-audit', '; '.join(probs)))
     if ctx.tier == 'thorough' and ok:
         ctx.coqchk('Props/C45.v')
     ctx.trust('harness vf/cstate_harness.py + vf/cstate_c45.py: fake connection class, manual executor/scheduler; ControlConnection metadata refresh stubbed',
@@ -56,7 +106,7 @@ def run(ctx):
             one(item['nhosts'], ops, encs, finds, sample=True)
     total = 700 if ctx.tier == 'quick' else 6000
     for i in range(total):
-        n = ctx.rng.randint(1, 2)
+        n = ctx.rng.randint(1, 3)
         ops, encs, finds = c45.gen_and_run45(ctx.rng, n, ctx.rng.choice([6, 8, 10, 12]))
         one(n, ops, encs, finds, sample=(i < 2))
     ctx.rule = ('histories of 6-12 operations on 1-2 hosts: submissions (pool creation, replacement, control reconnect, host reconnector), executor/'
